@@ -28,12 +28,13 @@ type waiter struct {
 	// raw
 	gen int
 	// Wait
-	comp, k  int
-	errAt    int // predicate returns predErr when st[comp] == errAt (-1: never)
-	predErr  error
-	lastDone bool
-	lastErr  error
-	evals    int
+	comp, k     int
+	errAt       int // predicate returns predErr when st[comp] == errAt (-1: never)
+	predErr     error
+	doneWithErr bool
+	lastDone    bool
+	lastErr     error
+	evals       int
 }
 
 type world struct {
@@ -104,7 +105,8 @@ func (w *world) sample(getWaitCh func() <-chan struct{}, where string) handed {
 
 func (w *world) pred(x *waiter) (bool, error) {
 	if x.errAt >= 0 && w.st[x.comp] == x.errAt {
-		return false, x.predErr
+		// some predicates report "done" together with their error: the error must still come back unchanged
+		return x.doneWithErr, x.predErr
 	}
 	return w.st[x.comp] >= x.k, nil
 }
@@ -230,6 +232,7 @@ func (w *world) waitCaller(x *waiter) {
 	if c.S.PlanP(250) {
 		x.errAt = c.IntRange(0, 2)
 		x.predErr = errors.New("pred-error")
+		x.doneWithErr = c.S.PlanP(400)
 	}
 	c.Descf("waiter %d: Wait(st[%d]>=%d, errAt=%d)", x.id, x.comp, x.k, x.errAt)
 	x.inCall = true
